@@ -108,6 +108,21 @@ static void late_dtor(void *v)
 	usim_probe("gp.bp_read_side_in_late_tsd_destructor");
 }
 
+/*
+ * bp: "a thread is removed when it exits". Checked in the exiting thread itself, after its last
+ * destructor round: it must not be registered any more.
+ */
+HARNESS_BOOKKEEPING static void bp_exit_check(int late_signal)
+{
+	if (!F->is_bp || !URCU_TLS(urcu_bp_reader))
+		return;
+	usim_fail("bp-exits-registered",
+		"thread T%d ends while it is still registered as a bp reader (slot %p stays allocated and listed for ever)%s",
+		usim_tid(), (void *) URCU_TLS(urcu_bp_reader),
+		late_signal ? ": a signal handler that uses the read side ran after the library's last thread-exit destructor round and registered the thread again"
+			    : "");
+}
+
 static struct obj *new_obj(void)
 {
 	struct obj *o = malloc(sizeof(*o));
@@ -401,6 +416,10 @@ static void run_common(int live)
 	gen(live);
 	if (F->is_bp && pthread_key_create(&late_key, late_dtor))
 		usim_fail("api-error", "pthread_key_create failed");
+	if (F->is_bp) {
+		usim_thread_exit_hook(bp_exit_check);
+		usim_fault_enable("signal_after_last_tsd_destructor", reg_mode && rnd(4) == 0);
+	}
 	gptr = new_obj();
 	gptr->version = 0;
 	gptr->a = 1;
